@@ -125,6 +125,7 @@ SRC_C = '''
 class {name}({base}):
 {options}
     tag: str = Field(required=False)
+    cnt: int = Field(required=False)
     n: int = Field(ge=0, default=0)
     pin: int = Field(immutable=True, no_output=True, default=9)
     key: str = Field(no_output=True)
@@ -132,13 +133,15 @@ class {name}({base}):
 FIELDS_C = {
     "tag": ("tag", ["tag"], [("'t'", "valid"), ("7", "conv")]),
     "n": ("n", ["n"], [("3", "valid"), ("'4'", "conv"), ("-1", "invalid")]),
+    # optional and without a default: under an exclude policy an invalid assignment has nothing to fall back to
+    "cnt": ("cnt", ["cnt"], [("6", "valid"), ("'x'", "invalid")]),
     "pin": ("pin", ["pin"], [("8", "valid"), ("9", "valid")]),
     "key": ("key", ["key"], [("'k'", "valid"), ("5", "conv")]),
 }
-OPTION_SETS_C = ["", "addition=True", "ignore_delete_nonexistent=True"]
+OPTION_SETS_C = ["", "addition=True", "ignore_delete_nonexistent=True", "invalid_values='exclude'"]
 INIT_C = ["S(key='q')", "S(key='q', tag='g', n=2)"]
 MULTI_C = ["s.update({'tag': 'u', 'n': 5})", "s.update(S(key='z', tag='w'))"]
-PRED_C = {"tag": lambda v: type(v) is str, "n": lambda v: type(v) is int and v >= 0, "pin": lambda v: type(v) is int,
+PRED_C = {"tag": lambda v: type(v) is str, "cnt": lambda v: type(v) is int, "n": lambda v: type(v) is int and v >= 0, "pin": lambda v: type(v) is int,
           "key": lambda v: type(v) is str}
 MODELS = {}
 _CUR_MODEL = ["A"]
